@@ -5,8 +5,8 @@ EXTENDS ConsensusQueue, Json
 Trace == ndJsonDeserialize("trace.ndjson")
 Shares5 == <<5000000, 3000001, 1000002, 1000000, 0>>
 Shares4 == <<5000000, 3000001, 1000002, 1000000>>   \* raw shares of the driver's world (see harness/drivers/cqueue)
-VARIABLES l, sigok   \* sigok: [id -> TRUE iff every stored signature verified against the current bytes]
-tvars == <<vars, l, sigok>>
+VARIABLES l, sup, sigok   \* sigok: [id -> TRUE iff every stored signature verified against the current bytes]
+tvars == <<vars, l, sup, sigok>>   \* sup: pairs <<id, v>>: validator v had an Evidence submission for message id ACCEPTED (history variable)
 
 Report(name, cond) == cond \/ PrintT(<<"MONFAIL", name, l>>)
 Conf(name, cond)   == cond \/ PrintT(<<"CONFFAIL", name, l>>)
@@ -52,13 +52,13 @@ Keep == UNCHANGED <<nextId, keyver, removedBy, applied>>
 
 TrInit == IsEvent("Init") /\ LET e == Trace[l] IN
   /\ Obs(e.obs) /\ nextId' = 1 /\ keyver' = [v \in Vals |-> 1] /\ res' = "init" /\ removedBy' = <<>> /\ applied' = <<>>
-  /\ sigok' = TRUE
+  /\ sigok' = TRUE /\ sup' = {}
   /\ Report("Setup.Shares", \A v \in Vals : e.shares[v] = Share[v])
   /\ Report("Setup.Empty", DOMAIN msgs' = {} /\ refHeight' = 0)
 
 TrPut == IsEvent("Put") /\ LET e == Trace[l] IN
   /\ Obs(e.obs) /\ res' = e.res /\ nextId' = IF e.res = "ok" THEN e.id + 1 ELSE nextId
-  /\ UNCHANGED <<keyver, removedBy, applied, sigok>>
+  /\ UNCHANGED <<keyver, removedBy, applied, sigok, sup>>
   /\ Always(e)
   /\ (e.res = "ok" => Report("C05.IdFresh", e.id >= nextId /\ e.id \notin DOMAIN msgs /\ e.id \in DOMAIN msgs'))
   /\ Conf("Put", e.res = "ok" /\ e.id = nextId /\ AbsMsgs(msgs') = AbsMsgs([i \in DOMAIN msgs \cup {nextId} |-> IF i = nextId THEN NewMsg(e.args.kind) ELSE msgs[i]]))
@@ -66,6 +66,7 @@ TrPut == IsEvent("Put") /\ LET e == Trace[l] IN
 \* generic message step: bind, keep bookkeeping, monitors, conformance with the spec action evaluated on the abstracted messages
 Step(act, actres, ModelMsgs(_), modelOk(_)) == IsEvent(act) /\ LET e == Trace[l] IN
   /\ Obs(e.obs) /\ res' = e.res /\ Keep /\ UNCHANGED sigok
+  /\ sup' = IF act = "Evidence" /\ e.res = "ok" THEN sup \cup {<<e.args.id, e.args.v>>} ELSE sup
   /\ Always(e)
   /\ Conf(actres, (e.res = "ok") = modelOk(e.args))
   /\ ConfD(act, AbsMsgs(msgs') = AbsMsgs(ModelMsgs(e.args)), <<AbsMsgs(msgs'), AbsMsgs(ModelMsgs(e.args))>>)
@@ -90,13 +91,13 @@ TrSetPAD == Step("SetPAD", "SetPAD.result", PadMsgs, EvOk)
 TrSetErr == Step("SetErr", "SetErr.result", ErrMsgs, EvOk)
 
 TrReRegister == IsEvent("ReRegister") /\ LET e == Trace[l] IN
-  /\ Obs(e.obs) /\ res' = e.res /\ UNCHANGED <<nextId, removedBy, applied, sigok>>
+  /\ Obs(e.obs) /\ res' = e.res /\ UNCHANGED <<nextId, removedBy, applied, sigok, sup>>
   /\ keyver' = IF e.res = "ok" THEN [keyver EXCEPT ![e.args.v] = @ + 1] ELSE keyver
   /\ Always(e)
   /\ Report("C06.ReRegisterKeepsQueue", msgs' = msgs)
 
 TrReassign == IsEvent("Reassign") /\ LET e == Trace[l] IN
-  /\ Obs(e.obs) /\ res' = e.res /\ Keep /\ UNCHANGED sigok
+  /\ Obs(e.obs) /\ res' = e.res /\ Keep /\ UNCHANGED <<sigok, sup>>
   /\ Always(e)
   /\ Report("C04.ReassignKeepsElection", \A id \in DOMAIN msgs : id \in DOMAIN msgs' /\ msgs'[id].elected = msgs[id].elected
                                             /\ msgs'[id].ests = msgs[id].ests /\ msgs'[id].ev = msgs[id].ev)
@@ -104,7 +105,7 @@ TrReassign == IsEvent("Reassign") /\ LET e == Trace[l] IN
                                                                        THEN [msgs[id] EXCEPT !.sigs = {}] ELSE msgs[id]]))
 
 TrAdvance == IsEvent("Advance") /\ LET e == Trace[l] IN
-  /\ Obs(e.obs) /\ res' = e.res /\ Keep /\ UNCHANGED sigok
+  /\ Obs(e.obs) /\ res' = e.res /\ Keep /\ UNCHANGED <<sigok, sup>>
   /\ Always(e)
   /\ Report("C04.AdvanceTouchesNothing", msgs' = msgs /\ refHeight' = refHeight /\ jailed' = jailed)
 
@@ -112,7 +113,7 @@ TrAdvance == IsEvent("Advance") /\ LET e == Trace[l] IN
 PruneDue(id) == height % PruneEvery = 0 /\ height - msgs[id].added > PruneAge
 TrEndBlock == IsEvent("EndBlock") /\ LET e == Trace[l]  m == EndBlockResult
                                        attested == {id \in Gone : msgs[id].kind = "ref" /\ Winner(msgs[id]) # {} /\ refHeight' # refHeight} IN
-  /\ Obs(e.obs) /\ res' = e.res /\ UNCHANGED <<nextId, keyver, sigok>>
+  /\ Obs(e.obs) /\ res' = e.res /\ UNCHANGED <<nextId, keyver, sigok, sup>>
   /\ removedBy' = [i \in DOMAIN removedBy \cup Gone |-> IF i \in Gone THEN (IF i \in attested THEN "attest" ELSE "prune") ELSE removedBy[i]]
   /\ applied' = applied
   /\ Always(e)
@@ -127,12 +128,12 @@ TrEndBlock == IsEvent("EndBlock") /\ LET e == Trace[l]  m == EndBlockResult
   \* C13b: pruning jails only snapshot members that supplied no evidence for a pruned message with a delivery
   \* report (pad / err), and nobody if fewer than 10% of the shares attested or consensus was reached
   /\ Report("C13.PruneJailsOnlySilent", \A v \in jailed' \ jailed :
-        \E id \in Gone : PruneDue(id) /\ v \in JailSet(msgs[id]))
+        \E id \in Gone : PruneDue(id) /\ v \in JailSet(msgs[id]) /\ <<id, v>> \notin sup)
   /\ Conf("EndBlock.msgs", AbsMsgs(msgs') = AbsMsgs(m.msgs))
   /\ Conf("EndBlock.ref", refHeight' = m.refHeight)
   /\ Conf("EndBlock.jailed", jailed' \subseteq m.jailed)
 
-TraceInit == Init /\ l = 1 /\ sigok = TRUE
+TraceInit == Init /\ l = 1 /\ sigok = TRUE /\ sup = {}
 TraceNext == TrInit \/ TrPut \/ TrSign \/ TrEstimate \/ TrEvidence \/ TrSetPAD \/ TrSetErr \/ TrReRegister \/ TrReassign \/ TrAdvance \/ TrEndBlock
 TraceAccepted == TLCGet("stats").diameter - 1 = Len(Trace)
 =============================================================================
